@@ -26,7 +26,9 @@ theorem reads_subscribed (env : Env) (e : Expr) : ∀ l ∈ (eval true env e).re
     simp only [eval]
     split
     · intro l hl; simp at hl
-    · split <;> (intro l hl; simp at hl)
+    · split
+      · intro l hl; simp at hl
+      · split <;> (intro l hl; simp at hl)
   | unary op e ih => simp only [eval]; split <;> first | exact covered_out _ _ ih | exact ih
   | bin op a b iha ihb =>
     simp only [eval]
@@ -34,6 +36,11 @@ theorem reads_subscribed (env : Env) (e : Expr) : ∀ l ∈ (eval true env e).re
     · split <;> exact covered_append _ _ _ iha ihb
     · exact iha
   | cmp op a b iha ihb =>
+    simp only [eval]
+    split
+    · split <;> exact covered_append _ _ _ iha ihb
+    · exact iha
+  | slice a b iha ihb =>
     simp only [eval]
     split
     · split <;> exact covered_append _ _ _ iha ihb
@@ -61,18 +68,15 @@ theorem reads_subscribed (env : Env) (e : Expr) : ∀ l ∈ (eval true env e).re
     split
     · split
       · exact covered_out _ _ ih
-      · exact access_covered env _ a _ _ ih
+      · split
+        · exact covered_out _ _ ih
+        · exact access_covered env _ a _ _ ih
     · exact ih
   | item e k ihe ihk =>
     simp only [eval]
     split
     · split
-      · split
-        · split
-          · exact covered_append _ _ _ ihe ihk
-          · exact access_covered env _ _ _ _ (covered_append _ _ .crash ihe ihk)
-        · split <;> exact covered_append _ _ _ ihe ihk
-        · exact covered_append _ _ _ ihe ihk
+      · exact itemRes_covered env _ _ _ _ (covered_append _ _ .crash ihe ihk)
       · exact covered_append _ _ _ ihe ihk
     · exact ihe
 
@@ -80,7 +84,9 @@ theorem reads_subscribed (env : Env) (e : Expr) : ∀ l ∈ (eval true env e).re
 subscription is in the list returned by the evaluation on `env`, then evaluating on `env'` gives the identical result
 — the same value or the same error class, the same subscription list, the same read log.  A template is notified
 whenever a subscribed location changes; so as long as it is *not* notified, re-evaluating could not give anything else:
-it cannot be stale.  (Holds for every expression incl. attribute and subscript access, and on error paths.) -/
+it cannot be stale.  (Holds for every expression incl. attribute, subscript and slice access on every root - machine,
+machine.time, settings, current_player, players[n], device - where "the same value" includes "the same absence": not in a
+game / player not in the game; and on error paths.) -/
 theorem fresh (env env' : Env) (e : Expr) (h : Agree env env' (eval true env e).subs) :
     eval true env' e = eval true env e := fresh_eval env env' e h
 
@@ -89,45 +95,88 @@ environment, the evaluator's outcome is the outcome of Python's semantics with a
 (`py false`), seen through MPF's error mapping `ofPy`/`mapErr`: Python's value unchanged; the template default exactly
 when Python raises `TypeError`, when a name is missing (plain `evaluate`) or when an attribute is read from a falsy
 parent (subscribing); a rejection (`crash`) for every other exception; `unmodelled` passed through.  The operator
-semantics (`applyBin` …) are shared by both sides and validated against CPython by the correspondence run. -/
-theorem eval_is_python (sub : Bool) (env : Env) (e : Expr) : (eval sub env e).out = ofPy sub (py false env e) :=
+semantics (`applyBin`, `pyIndex`, `pySlice`, `fmtScan` …) are shared by both sides and validated against CPython by the
+correspondence run.  New error classes: a `ValueError` nobody catches (`'%z' % 1`, slice step 0, unknown mode) behaves like a
+missing name; a location whose placeholder raises `ValueError` (`absent`: not in a game, player not in game) gives the default
+in both modes; the roots `mode` and `game` have no `subscribe()` and are rejected when subscribing (second argument of `py`). -/
+theorem eval_is_python (sub : Bool) (env : Env) (e : Expr) : (eval sub env e).out = ofPy sub (py false sub env e) :=
   eval_out sub env e
 
 /-- the documented deviation, exactly: whenever evaluating all `and`/`or` operands succeeds, Python's short-circuit
 evaluation (`py true`) yields the same value — the two can only differ by an error in an operand Python would skip -/
-theorem all_operands_agree_with_short_circuit (env : Env) (e : Expr) (v : Val) (h : py false env e = .ok v) :
-    py true env e = .ok v := strict_to_lazy env e v h
+theorem all_operands_agree_with_short_circuit (rej : Bool) (env : Env) (e : Expr) (v : Val) (h : py false rej env e = .ok v) :
+    py true rej env e = .ok v := strict_to_lazy rej env e v h
 
 /-- corollary: a value computed by the evaluator is Python's (short-circuit) value of the expression -/
 theorem value_is_pythons (sub : Bool) (env : Env) (e : Expr) (v : Val) (h : (eval sub env e).out = .ok v) :
-    py true env e = .ok v := by
+    py true sub env e = .ok v := by
   apply strict_to_lazy
   rw [eval_is_python] at h
-  cases hp : py false env e with
+  cases hp : py false sub env e with
   | ok w => rw [hp] at h; simp only [ofPy] at h; rw [Out.ok.inj h]
   | error x => rw [hp] at h; cases x <;> cases sub <;> simp [ofPy, mapErr] at h
+
+/-- **Text templates, reads are subscribed**: every location read by any `{field}` of a text template is in the subscription
+list of the template (the futures of all fields are combined with `Util.any`). -/
+theorem text_reads_subscribed (env : Env) (ps : List Piece) :
+    ∀ l ∈ (textEval (eval true env) ps).reads, Sub.loc l ∈ (textEval (eval true env) ps).subs :=
+  textEval_covered _ (fun e => reads_subscribed env e) ps
+
+/-- **Text templates are fresh**: same statement as `fresh` for a whole text template - while no subscribed location
+changes, formatting again gives the identical text. -/
+theorem text_fresh (env env' : Env) (ps : List Piece) (h : Agree env env' (textEval (eval true env) ps).subs) :
+    textEval (eval true env') ps = textEval (eval true env) ps := fresh_text env env' ps h
+
+/-- **Text templates format Python's values**: the text is the concatenation of the literal pieces and of every field
+formatted (`format(value, spec)`, `None` for a field whose evaluation gave the default, `0` for `None` under the `d` spec)
+from the value Python's semantics gives the field's expression. -/
+theorem text_is_python (sub : Bool) (env : Env) (ps : List Piece) :
+    (textEval (eval sub env) ps).out = textPy sub env ps := textEval_out sub env ps
 
 /-- non-vacuity of `fresh`: `machine.b` differs between the environments but is not subscribed (the test is false) -/
 example : Agree { vars := [(("machine", ["c"]), .int 0), (("machine", ["b"]), .int 1)] }
       { vars := [(("machine", ["c"]), .int 0), (("machine", ["b"]), .int 2)] }
       (eval true { vars := [(("machine", ["c"]), .int 0), (("machine", ["b"]), .int 1)] }
         (.ite (.attr (.name "machine") "c") (.attr (.name "machine") "b") (.const (.int 5)))).subs := by
-  refine ⟨rfl, ?_⟩
+  refine ⟨rfl, rfl, ?_⟩
   intro l hl
   have : l = ("machine", ["c"]) := by
-    simp [eval, access, roots, depth, Env.read, findVar, truthy] at hl
+    simp [eval, access, roots, depth, Env.look, findVar, truthy] at hl
     exact hl
   subst this
   decide
 
 /-- non-vacuity of the deviation: strict evaluation fails where Python short-circuits -/
-example : py false {} (.boolop "And" (.const (.bool false)) (.bin "Add" (.const (.int 1)) (.const (.str "x")))) = .error .typeError ∧
-    py true {} (.boolop "And" (.const (.bool false)) (.bin "Add" (.const (.int 1)) (.const (.str "x")))) = .ok (.bool false) := by
+example : py false false {} (.boolop "And" (.const (.bool false)) (.bin "Add" (.const (.int 1)) (.const (.str "x")))) = .error .typeError ∧
+    py true false {} (.boolop "And" (.const (.bool false)) (.bin "Add" (.const (.int 1)) (.const (.str "x")))) = .ok (.bool false) := by
   constructor <;> rfl
 
 /-- non-vacuity: a concrete evaluation reads two locations, both subscribed, also when the taken branch fails -/
 example : (eval true { vars := [(("machine", ["b"]), .int 1)] }
     (.ite (.attr (.name "machine") "b") (.bin "Add" (.attr (.name "machine") "a") (.const (.str "x"))) (.const (.int 5)))).reads
     = [("machine", ["b"]), ("machine", ["a"])] := by decide
+
+/-- non-vacuity (session 3 roots): outside a game `current_player.p` is absent - the evaluation yields the default, and the
+location as well as the player placeholder itself are subscribed, so the game start re-evaluates it; in the game it is 7 -/
+example : (eval true { absent := [("current_player", ["p"])] } (.attr (.name "current_player") "p")).out = .default ∧
+    (eval true { absent := [("current_player", ["p"])] } (.attr (.name "current_player") "p")).subs
+      = [Sub.root "current_player", Sub.loc ("current_player", ["p"])] ∧
+    (eval true { vars := [(("current_player", ["p"]), .int 7)] } (.attr (.name "current_player") "p")).out = .ok (.int 7) := by
+  decide
+
+/-- non-vacuity: `players[1].score` reads the location `players.1.score`; `'%s-%d' % (machine.a, 2)` and a slice evaluate -/
+example : (eval true { vars := [(("players", ["1", "score"]), .int 30)] }
+      (.attr (.item (.name "players") (.const (.int 1))) "score")).reads = [("players", ["1", "score"])] ∧
+    (eval false { vars := [(("machine", ["a"]), .str "x")] }
+      (.bin "Mod" (.const (.str "%s-%d")) (.tcons (.attr (.name "machine") "a") (.tcons (.const (.int 2)) .tnil)))).out
+      = .ok (.str "x-2") ∧
+    (eval false {} (.slice (.const (.str "abcde")) (.tcons (.const (.int 1)) (.tcons (.const (.int (-1))) (.tcons (.const .none) .tnil))))).out
+      = .ok (.str "bcd") := by
+  decide
+
+/-- non-vacuity of the text theorems: `a={machine.a:d}` with `machine.a = None` formats as `a=0` and subscribes `machine.a` -/
+example : (textEval (eval true {}) [.lit "a=", .fld (.attr (.name "machine") "a") "d"]).out = .ok (.str "a=0") ∧
+    (textEval (eval true {}) [.lit "a=", .fld (.attr (.name "machine") "a") "d"]).reads = [("machine", ["a"])] := by
+  decide
 
 end MpfVerif.C16
